@@ -19,7 +19,7 @@ RULE = gw.RULE_TEXT.format(prop=PROPERTY, inc='no incompatibility constraints' i
                            else '0-3 incompatibility constraints on start, option, derived and shared nodes')
 COMPONENTS = gw.COMPONENTS
 ASSUMPTIONS = gw.ASSUMPTIONS
-WALL_BUDGET = {'quick': 60.0, 'thorough': 1200.0}
+WALL_BUDGET = {'quick': 60.0, 'thorough': 600.0}
 
 
 def jobs(tier, batch_seed):
